@@ -186,7 +186,7 @@ BigSerChecks(e) ==
   IN  << << "bigser.result", (e.r = "ok") = fits >>,
          << "bigser.prefix", (fits /\ e.r = "ok") => e.prefix = ap.bytes >>,
          << "bigser.total", (fits /\ e.r = "ok") => e.total = total /\ e.body_ok >>,
-         << "bigser.cache", (ap.ok /\ Has(e, "cache")) => e.cache = total >> >>
+         << "bigser.cache", ~Has(e, "cache_panic") /\ ((ap.ok /\ Has(e, "cache")) => e.cache = total) >> >>
 
 \* n-fold repetition: rlist = (item item ... item . tail), llist = (((tail . item) . item) ...),
 \* dbl = n doublings x -> (x . x) of item (a DAG in the allocator, 2^n leaves when expanded)
